@@ -57,6 +57,13 @@ UNITS['U10'] = dict(
     not_covered=['merge_deduplicate: strict sortedness of the result (ops structure, provenance and duplicate detection are proved)',
                  'merge_partitioned, merge_deduplicate_partitioned, partition, subpartition'])
 
+UNITS['U11'] = dict(
+    kind='verus', tpl='contracts/U11_topn.vx',
+    title='top_n.rs: heap_replace (sift-down of the bounded heap behind ORDER BY ... LIMIT n)',
+    assumptions=['assumed contract of a comparator (trait Comparator) - discharged for every real impl by U12k',
+                 'heaps hold fewer than usize::MAX/2 - 2 elements (index arithmetic 2*node+2)'],
+    not_covered=['multiset preservation of (key, value) pairs by heap_replace', 'TopN::execute / finalize (sort_unstable_by closures)'])
+
 UNITS['U09k'] = dict(
     kind='kani', crate='kani/U09', needs_lock=True,
     title='aggregate.rs / merge_aggregate.rs: SumI64, Count, MaxI64, MinI64 accumulate/combine and Combinable<i64>::combine (complete)',
@@ -129,7 +136,7 @@ PROPS = {
                 level_note='grouping-key construction, hash-map grouping and the final pass are not covered',
                 technique='contract-based deductive verification (Verus + Kani complete harnesses) of extracted functions',
                 assumptions=[], not_covered=['hashmap_grouping*', 'try_bitpacking (float log2)', 'Aggregate*::execute loops (pending)']),
-    'C05': dict(level='proof', units=['U10', 'U12k', 'U13k'],
+    'C05': dict(level='proof', units=['U10', 'U11', 'U12k', 'U13k'],
                 level_text='Verus proof of merge (sorted, stable, limit), complete Kani proofs of integer/float comparators and LIMIT/OFFSET window arithmetic; string comparators bounded',
                 level_note='std sort_by/sort_unstable_by, the top-n driver and the planner choice between sort and top-n are not covered',
                 technique='contract-based deductive verification (Verus + Kani) of extracted functions',
